@@ -103,6 +103,13 @@ func loadWorld(repoDir string, overlay map[string][]byte, goarch string) *World 
 	if w.Root == nil || w.Repl == nil {
 		infra("ssa packages missing")
 	}
+	defaultTables = map[*ssa.Global]*constTable{}
+	for g, t := range constTablesOf(w, w.RootP, w.Root) {
+		defaultTables[g] = t
+	}
+	for g, t := range constTablesOf(w, w.ReplP, w.Repl) {
+		defaultTables[g] = t
+	}
 	return w
 }
 
